@@ -16,6 +16,7 @@ Few == { JNull, JB(TRUE), JI(One), JF(Fin(FALSE, <<1>>, 0)), JS(<<97>>) }
 Keys == { <<97>>, <<>>, <<233>>, <<107, 32, 121>>, <<98>> }
 Wrap(S) == { [j |-> "arr", v |-> <<>>], [j |-> "obj", v |-> <<>>] }
       \cup { [j |-> "arr", v |-> <<x>>] : x \in S } \cup { [j |-> "arr", v |-> <<x, y>>] : x \in S, y \in Few }
+      \cup { [j |-> "arr", v |-> <<JI(One), x, JB(FALSE)>>] : x \in S }          \* a number first, then whatever it is, then a boolean
       \cup { [j |-> "obj", v |-> << <<k, x>> >>] : k \in Keys, x \in S }
       \cup { [j |-> "obj", v |-> << <<k1, x>>, <<k2, y>> >>] : k1 \in {<<97>>, <<233>>}, k2 \in {<<98>>, <<>>}, x \in S, y \in Few }
 TsOf(y, mo, d, sec, us) == Ts(Join(DaysFromCivil(y, mo, d), sec, us))
@@ -28,7 +29,9 @@ Init == \/ (doc \in Scalars /\ cel = ToCel(doc) /\ back = Encode(cel))
         \/ (doc = JNull /\ \E x \in Special : cel = Map(<< <<Str(<<107>>), x>> >>) /\ back = Encode(cel))
 \* grow: wrap the current document once more (bounded by DEPTH)
 RECURSIVE Depth(_)
-Depth(d) == IF d.j = "arr" /\ d.v # <<>> THEN 1 + Depth(d.v[1]) ELSE IF d.j = "obj" /\ d.v # <<>> THEN 1 + Depth(d.v[1][2]) ELSE IF d.j \in {"arr", "obj"} THEN 1 ELSE 0
+Max(S) == IF S = {} THEN 0 ELSE CHOOSE m \in S : \A n \in S : n <= m
+Depth(d) == IF d.j = "arr" THEN 1 + Max({ Depth(d.v[i]) : i \in 1..Len(d.v) })
+            ELSE IF d.j = "obj" THEN 1 + Max({ Depth(d.v[i][2]) : i \in 1..Len(d.v) }) ELSE 0
 Next == /\ cel = ToCel(doc) /\ Depth(doc) < DEPTH /\ doc' \in Wrap({doc}) /\ cel' = ToCel(doc') /\ back' = Encode(cel')
 Spec == Init /\ [][Next]_vars
 RoundTrip == cel = ToCel(doc) => back = doc
